@@ -165,3 +165,8 @@ package message
 //@              (F.ftype == typeUint8 ==> logBytesAre(0, "uint8_t ")) && (F.ftype == typeInt8 ==> logBytesAre(0, "int8_t ")) &&
 //@              (F.ftype == typeChar ==> logBytesAre(0, "char "))
 //@   loop 0 body-ensures [same-hash-object] logLen() >= 1 ==> logArg(0, 0) == logArg(logLen()-1, 0)
+
+//@ func NewReadWriter returns (rw, err)
+//@   ghostlog (*message.ReadWriter).Initialize
+//@   ensures  rw != nil && rw.Message == msg && logLen() == 1 && logCallee(0, "(*message.ReadWriter).Initialize") && logArgIsPtr(0, 0, rw) && err == logRetErr(0)
+//@   modifies ghost:log
